@@ -44,14 +44,22 @@ def _loops_in_order(fn_node):
     return out
 
 
-def extract_loop(func, ordinal=0):
+def extract_loop(func, ordinal=0, select=None):
+    """select: optional predicate (header_source, body_source) -> bool; the first loop in source order that satisfies it is taken (robust against
+    loops added or removed before the one of interest); falls back to `ordinal` when no predicate is given"""
     func = getattr(func, '__wrapped__', func)
     src = textwrap.dedent(inspect.getsource(func))
     tree = ast.parse(src)
     fn = tree.body[0]
     assert isinstance(fn, ast.FunctionDef), 'not a plain function'
     loops = _loops_in_order(fn)
-    loop = loops[ordinal]
+    if select is not None:
+        cand = [l for l in loops if select(ast.unparse(l.iter) if isinstance(l, ast.For) else ast.unparse(l.test), ast.unparse(ast.Module(body=l.body, type_ignores=[])))]
+        if not cand:
+            raise LookupError('no loop of the function matches the selection predicate')
+        loop = cand[0]; ordinal = loops.index(loop)
+    else:
+        loop = loops[ordinal]
     # local names of the enclosing function
     arg_names = [a.arg for a in fn.args.posonlyargs + fn.args.args + fn.args.kwonlyargs]
     if fn.args.vararg: arg_names.append(fn.args.vararg.arg)
